@@ -211,13 +211,14 @@ def run(repo: Repo, L: Ledger, tier: str):
                 L.ok("R1", inst, "exempt: " + EXEMPT_MODULES[f.module.name], f.loc(call))
                 continue
             if site == "open":
-                governed = bool(names_in(mode) & (mine | _locals_depending_on(f, mine)))
+                ctl = _control_flag_facts(call, mine)
+                governed = bool(names_in(mode) & (mine | _locals_depending_on(f, mine))) or bool(ctl)
                 if not governed:
                     L.fail("R1", inst, f"file opened for writing with mode '{norm(mode)}' that does not depend on the clobber flag", f.loc(call))
                     continue
                 n_governed += 1
                 L.ok("R1", inst, f"clobber-governed open, mode '{norm(mode)}'", f.loc(call))
-                _check_mode(repo, L, f, call, mode, mine, reach)
+                _check_mode(repo, L, f, call, mode, mine, reach, ctl)
                 _check_handler(L, f, call)
             elif site == "logging.basicConfig":
                 n_governed += _check_logging(L, f, call, mine)
@@ -294,7 +295,26 @@ def _param_values(repo: Repo, f: Func, p: str, reach, seen=()) -> set:
     return vals
 
 
-def _check_mode(repo, L, f, call, mode, carriers, reach):
+def _control_flag_facts(node, carriers) -> dict:
+    """{flag: value} known at `node` from the enclosing if/else tests (control dependence on the clobber flag)"""
+    from ..flow import cond_facts
+
+    out = {}
+    cur = node
+    for a in _ancestors(node):
+        if isinstance(a, ast.If):
+            side = True if any(cur is s_ or contains(s_, cur) for s_ in a.body) else False if any(cur is s_ or contains(s_, cur) for s_ in a.orelse) else None
+            if side is not None:
+                for t, v in cond_facts(a.test, side):
+                    if isinstance(t, ast.Name) and t.id in carriers:
+                        out.setdefault(t.id, v)
+        if isinstance(a, ast.FunctionDef):
+            break
+        cur = a
+    return out
+
+
+def _check_mode(repo, L, f, call, mode, carriers, reach, ctl=None):
     env_base = {}
     deep = _deep_names(f, mode)
     for nme in deep:
@@ -303,8 +323,11 @@ def _check_mode(repo, L, f, call, mode, carriers, reach):
         if nme in f.params():
             env_base[nme] = _param_values(repo, f, nme, reach)
     inst = f"{f.short}:mode"
-    for flag in carriers & deep or carriers:
+    ctl = ctl or {}
+    for flag in (carriers & deep) | set(ctl) or carriers:
         for val in (False, True):
+            if flag in ctl and ctl[flag] != val:
+                continue  # this site is not reached with that flag value (sibling branch handles it)
             env = dict(env_base)
             env[flag] = {val}
             modes = strset(mode, env, f)
@@ -453,20 +476,31 @@ def _check_logging(L, f, call, carriers) -> int:
                 L.fail("R2", inst, "a path configures a log filename without filemode (default 'a' modifies an existing file)", f.loc(call), path=p.describe())
             else:
                 governed = 1
-                _fold_filemode(L, f, call, fm, carriers, inst)
+                from ..flow import cond_facts
+
+                pf = {}
+                for e in p.events:
+                    if e.kind == "cond":
+                        for t, v in cond_facts(e.node, e.val):
+                            if isinstance(t, ast.Name) and t.id in carriers:
+                                pf[t.id] = v
+                _fold_filemode(L, f, call, fm, carriers, inst, pf)
     L.check(True, "R1", inst, "log setup: file mode governed by the flag" if found_file else "log setup without file", "", f.loc(call))
     _check_handler_logging(L, f, call)
     return governed
 
 
-def _fold_filemode(L, f, call, fm, carriers, inst):
-    used = names_in(fm) & carriers
+def _fold_filemode(L, f, call, fm, carriers, inst, path_facts=None):
+    path_facts = path_facts or {}
+    used = (names_in(fm) & carriers) | set(path_facts)
     if not used:
         v = try_fold(fm, default=None)
         L.fail("R2", inst + ":filemode", f"log filemode '{norm(fm)}' does not depend on the clobber flag", f.loc(fm))
         return
     for flag in used:
         for val in (False, True):
+            if flag in path_facts and path_facts[flag] != val:
+                continue  # this path is not taken with that flag value
             modes = strset(fm, {flag: {val}})
             if val is False:
                 bad = [m for m in modes if not (isinstance(m, str) and "x" in m and not any(c in m for c in "wa+"))]
